@@ -62,6 +62,7 @@ ArithRoot(t, ring) ==
   \cup (IF t[1] = "neg" /\ t[2][1] = "+" THEN { <<"+", <<"neg", t[2][2]>>, <<"neg", t[2][3]>> >> } ELSE {})
   \cup (IF t[1] = "^" /\ t[3] >= 2 THEN { <<"*", <<"^", t[2], t[3] - 1>>, t[2]>> } ELSE {})             \* PowUnfold
   \cup (IF t[1] = "^" /\ t[3] = 1 THEN { t[2] } ELSE {})
+  \cup (IF t[1] = "^" /\ t[3] = 0 THEN { N1 } ELSE {})                                                   \* PowZero
 RECURSIVE ArithSteps(_,_)
 ArithSteps(t, ring) ==
   ArithRoot(t, ring) \cup
@@ -127,6 +128,13 @@ Special(T) ==
   ELSE { <<"-", vx, vy>>, <<"-", vx, <<"-", vy, vx>> >>, <<"neg", <<"+", vx, vy>> >>, <<"-", vx, vx>>,
          <<"*", <<"-", vx, vy>>, <<"+", vx, vy>> >>, <<"+", <<"*", vx, vx>>, vx>>, <<"*", <<"^", vx, 2>>, vx>>,
          <<"+", <<"^", vx, 2>>, <<"*", <<"n", 2>>, vx>> >>, <<"^", <<"+", vx, vy>>, 2>>, <<"+", <<"^", vx, 2>>, <<"+", vx, vy>> >> }
+       \* CANCELLING members: a monomial added and subtracted (SubNeg / Comm / Assoc move the two to every position), the smallest, a
+       \* larger, a product, a coefficient; powers with exponents 0, 1, 2 over bases that cancel to 0 or to a constant (or do not)
+       \cup { <<"-", <<"+", vx, vy>>, vx>>, <<"-", <<"+", vx, vy>>, vy>>, <<"-", <<"+", <<"+", vx, vy>>, vz>>, vx>>,
+              <<"-", <<"+", <<"*", vx, vy>>, vx>>, <<"*", vx, vy>> >>, <<"-", <<"*", <<"n", 2>>, vx>>, vx>>, <<"+", <<"-", vx, vx>>, N1>>,
+              <<"^", <<"-", vx, vx>>, 0>>, <<"^", <<"-", vx, vx>>, 1>>, <<"^", <<"-", vx, vx>>, 2>>, <<"^", <<"-", <<"+", vx, N1>>, vx>>, 0>>,
+              <<"^", <<"-", <<"+", vx, N1>>, vx>>, 2>>, <<"^", vx, 0>>, <<"^", vx, 1>>, <<"^", <<"+", vx, vy>>, 0>>, <<"^", N0, 0>>,
+              <<"+", <<"^", <<"-", vx, vx>>, 0>>, vy>> }
        \cup (IF Rich THEN { <<"-", <<"*", vx, vy>>, <<"*", vy, vx>> >>, <<"*", <<"+", vx, N1>>, <<"-", vx, N1>> >>,
                             <<"+", <<"*", vx, <<"*", vx, vy>> >>, <<"*", vx, vy>> >>, <<"neg", <<"-", vx, <<"neg", vy>> >> >>,
                             <<"^", <<"+", vx, N1>>, 3>>, <<"*", <<"^", <<"+", vx, vy>>, 2>>, vx>> } ELSE {})
@@ -188,7 +196,7 @@ WfA(x, ring) == CASE x[1] = "v" -> TRUE [] x[1] = "n" -> x[2] >= 0
                   [] x[1] \in {"+", "*"} -> WfA(x[2], ring) /\ WfA(x[3], ring)
                   [] x[1] = "-" -> ring /\ WfA(x[2], ring) /\ WfA(x[3], ring)
                   [] x[1] = "neg" -> ring /\ WfA(x[2], ring)
-                  [] x[1] = "^" -> ring /\ x[3] >= 1 /\ x[3] <= MaxExp /\ WfA(x[2], ring)
+                  [] x[1] = "^" -> ring /\ x[3] >= 0 /\ x[3] <= MaxExp /\ WfA(x[2], ring)
                   [] x[1] = "S" -> ~ring /\ WfA(x[2], ring)
                   [] x[1] = "o" -> ~ring /\ x[2][1] = "tsub"
                   [] OTHER -> FALSE
